@@ -5,6 +5,7 @@ import (
 	"io"
 	"io/ioutil"
 	"regexp"
+	"runtime"
 	"strings"
 	"sync"
 	"unicode"
@@ -129,6 +130,7 @@ type lexer struct {
 
 	done     chan struct{} // Closed when nobody will read tokens any more
 	stopOnce sync.Once
+	exited   chan struct{} // Closed when tokenize has returned
 }
 
 // stop tells the lexer that no more tokens will be read, so that tokenize
@@ -139,11 +141,13 @@ func (l *lexer) stop() {
 	})
 }
 
-// send delivers a token to the parser, unless the parser has gone away.
+// send delivers a token to the parser. If the parser has gone away there is
+// no point in lexing the rest of the input: the lexer goroutine ends here.
 func (l *lexer) send(tok token) {
 	select {
 	case l.tokens <- tok:
 	case <-l.done:
+		runtime.Goexit()
 	}
 }
 
@@ -164,6 +168,7 @@ func (l *lexer) nextToken() token {
 
 // tokenize kicks things off.
 func (l *lexer) tokenize() {
+	defer close(l.exited)
 	if l.readErr != nil {
 		// The source is incomplete: nothing of it is a template.
 		l.errorf("unable to read template: %s", l.readErr)
@@ -180,7 +185,7 @@ func newLexer(input io.Reader) *lexer {
 	i, err := ioutil.ReadAll(input)
 	return &lexer{
 		start: 0, pos: 0, line: 1, offset: 0, input: string(i), tokens: make(chan token),
-		mode: modeNormal, done: make(chan struct{}), readErr: err,
+		mode: modeNormal, done: make(chan struct{}), exited: make(chan struct{}), readErr: err,
 	}
 }
 
